@@ -78,8 +78,8 @@ func CheckC18(env *core.Env, rep *core.Report) *core.Result {
 		cases = append(cases, c)
 	}
 	e.note("Refs", r, fmt.Sprintf("%d configurations: the base one and one per broken reference (stage->task x5, stage->pipeline x1, depends_on unknown / other pipeline's stage x4 each, duplicate stage name x4, watcher->task, inclusion cycles of length 1, 2, 3); WellFormed evaluated; OnlyBaseWellFormed holds", len(cases)))
-	if len(cases) != 36 {
-		core.Broken("Refs emitted %d cases, expected 36", len(cases))
+	if len(cases) != 38 {
+		core.Broken("Refs emitted %d cases, expected 38", len(cases))
 	}
 	sort.Slice(cases, func(i, j int) bool { return core.JSON(cases[i].Mut) < core.JSON(cases[j].Mut) })
 	n := 0
